@@ -174,7 +174,9 @@ func Active() *Sim { return active }
 func NewSim(tape *Tape) *Sim {
 	s := &Sim{Tape: tape, StepCap: 20000,
 		locks: map[uintptr]*lockState{}, onces: map[uintptr]*onceState{}, wgs: map[uintptr]int{},
-		MapSites: map[string]int{}}
+		MapSites: map[string]int{},
+		// under a simulator no map iteration is left to the Go runtime: the order comes from the tape
+		MapMode: MapSeeded}
 	s.Clock.now = time.Date(2024, 1, 1, 0, 0, 0, 0, time.UTC)
 	return s
 }
